@@ -600,7 +600,14 @@ def lt_keys(P, Ev, o):
                 bad(s, 'unrecognised guard in the comparison chain')
                 return
             attr, pol = t
-            decide, cont = (s.body, s.orelse) if pol == 'ne' else (s.orelse, s.body)
+            tail = stmts[1:]
+            if pol == 'ne':
+                decide, cont = s.body, s.orelse
+            elif s.orelse:
+                decide, cont = s.orelse, s.body
+            else:
+                # `if a.k == b.k: <go on with the next key and return>` followed by the comparison of k (reached only when they differ)
+                decide, cont, tail = tail, s.body, []
             decide = [x for x in decide if not (isinstance(x, ast.Expr) and isinstance(x.value, ast.Constant))]
             if len(decide) != 1 or not isinstance(decide[0], ast.Return):
                 bad(s, f'when the events differ in `{attr}` the chain must return the comparison of `{attr}`')
@@ -610,8 +617,8 @@ def lt_keys(P, Ev, o):
                 bad(decide[0], f'the branch for events that differ in `{attr}` does not compare `{attr}`')
                 return
             keys.append([d[0], d[1]])
-            rest = cont if cont else stmts[1:]
-            if cont and stmts[1:]:
+            rest = cont if cont else tail
+            if cont and tail:
                 bad(s, 'unreachable statements after the comparison chain')
             walk(rest)
             return
